@@ -147,4 +147,88 @@ example : NoAlias [("r1", "/a/:x"), ("r1", "/a/:x"), ("r1", "/b"), ("r2", "/a/:x
   simp only [List.mem_cons, List.mem_nil_iff, or_false] at ha hb
   rcases ha with rfl | rfl | rfl | rfl <;> rcases hb with rfl | rfl | rfl | rfl <;> first | rfl | (revert h2; decide) | (revert h1; decide)
 
+/-- two load results agree: both fail, or both succeed with trees that hold the same nodes -/
+def Rel (a b : Option (Table RVal)) : Prop :=
+  match a, b with
+  | some x, some y => ∀ p, getNode x p = getNode y p
+  | none, none => True
+  | _, _ => False
+
+theorem addItem_congr (i : Item) (t₁ t₂ : Table RVal) (h : ∀ p, getNode t₁ p = getNode t₂ p) :
+    Rel (addItem t₁ i) (addItem t₂ i) := by
+  unfold addItem
+  have iff1 := addPat_ok_iff sameSource t₁ i.pat i.keys i.val i.bt
+  have iff2 := addPat_ok_iff sameSource t₂ i.pat i.keys i.val i.bt
+  rw [h i.pat] at iff1
+  cases h1 : addPat sameSource t₁ i.pat i.keys i.val i.bt with
+  | error e =>
+    cases h2 : addPat sameSource t₂ i.pat i.keys i.val i.bt with
+    | error e2 => simp [Rel]
+    | ok t2 =>
+      exfalso
+      have := iff1.mpr (iff2.mp ⟨t2, h2⟩)
+      obtain ⟨t', ht'⟩ := this
+      rw [h1] at ht'; cases ht'
+  | ok t1 =>
+    cases h2 : addPat sameSource t₂ i.pat i.keys i.val i.bt with
+    | error e2 =>
+      exfalso
+      have := iff2.mpr (iff1.mp ⟨t1, h1⟩)
+      obtain ⟨t', ht'⟩ := this
+      rw [h2] at ht'; cases ht'
+    | ok t2 =>
+      simp only [Rel]
+      intro p
+      rw [addPat_getNode sameSource t₁ t1 _ _ _ _ h1 p, addPat_getNode sameSource t₂ t2 _ _ _ _ h2 p, h i.pat, h p]
+
+theorem addItems_congr (ois : List (Option Item)) (t₁ t₂ : Table RVal) (h : ∀ p, getNode t₁ p = getNode t₂ p) :
+    Rel (addItems t₁ ois) (addItems t₂ ois) := by
+  induction ois generalizing t₁ t₂ with
+  | nil => simpa [addItems, Rel] using h
+  | cons x xs ih =>
+    cases x with
+    | none => simp [addItems, Rel]
+    | some i =>
+      simp only [addItems]
+      have := addItem_congr i t₁ t₂ h
+      cases h1 : addItem t₁ i with
+      | none =>
+        cases h2 : addItem t₂ i with
+        | none => simp [Rel]
+        | some b => rw [h1, h2] at this; simp [Rel] at this
+      | some a =>
+        cases h2 : addItem t₂ i with
+        | none => rw [h1, h2] at this; simp [Rel] at this
+        | some b =>
+          rw [h1, h2] at this
+          exact ih a b this
+
+/-- **Acceptance does not depend on the history** (creation of a rule set): after any history the new rule set is
+accepted iff loading the current rule sets followed by the new one into an empty instance succeeds — stale state of
+earlier versions can neither block a valid rule set nor admit an invalid one. -/
+theorem c06_add_accept_iff_fresh (ops : List RepoOp) (src : String) (rules : List RuleCfg) :
+    ((Repo.run ops).apply (.add src rules)).isSome =
+      (addRules [] ((Repo.run ops).known ++ rules.map (Rule.mk src))).isSome := by
+  obtain ⟨t, ht, hn⟩ := fresh_of_inv _ (c06_inv_run ops)
+  have hsplit : addRules [] ((Repo.run ops).known ++ rules.map (Rule.mk src)) =
+      (addRules [] (Repo.run ops).known).bind (fun t' => addRules t' (rules.map (Rule.mk src))) := by
+    rw [addRules_eq, allItems_append, addItems_append, ← addRules_eq]
+    cases addRules [] (Repo.run ops).known with
+    | none => rfl
+    | some t' => simp [addRules_eq]
+  rw [hsplit, ht]
+  simp only [Option.bind_some, Repo.apply, Repo.addRuleSet]
+  have := addItems_congr (allItems (rules.map (Rule.mk src))) _ _ (fun p => (hn p).symm)
+  rw [← addRules_eq, ← addRules_eq] at this
+  cases h1 : addRules (Repo.run ops).index (rules.map (Rule.mk src)) with
+  | none =>
+    cases h2 : addRules t (rules.map (Rule.mk src)) with
+    | none => rfl
+    | some b => rw [h1, h2] at this; simp [Rel] at this
+  | some a =>
+    cases h2 : addRules t (rules.map (Rule.mk src)) with
+    | none => rw [h1, h2] at this; simp [Rel] at this
+    | some b => rfl
+
+
 end Heimdall.Props.C06
